@@ -34,6 +34,11 @@ def cases(tier, seed):
                     if tier == 'quick' and k == 3 and rng.random() < 0.7:
                         continue
                     add_ext(params=ps, undef=undef, ctx=ctxh, ctxvalue=ctxv, args=list(args))
+    # result shapes: one result; two results whose second is error, a concrete error type, interface{}, string, int; 0 and 3 results
+    for ps in ([], ['iface'], ['str', 'opt:f64'], ['f64', 'f64']):
+        for nout, second, iserr in [(1, '', True), (2, '', True), (2, 'myerr', True), (2, 'iface', False), (2, 'string', False), (2, 'int', False), (0, '', True), (3, '', True)]:
+            for args in ([], ['1'], ['"s"', '2'], ['1', '2']):
+                add_ext(params=ps, nout=nout, second=second, errsecond=iserr, args=args, mode='ok')
     # parameter lists of length 0..4, handlers, result modes
     N = 2500 if tier == 'quick' else 150000
     for i in range(N):
